@@ -130,6 +130,9 @@ func recipeFor(p *Program, o *Obligation) *replayRecipe {
 	if fn.Pkg != nil && fn.Pkg.Pkg.Name() == "server" && (key == "server.(*Server).Keys" || key == "server.(*Server).Scan") {
 		return &replayRecipe{kind: "glob", pkgDir: "./examples/go-redisd/server", tmpl: "store_glob_replay_test.go.txt"}
 	}
+	if fn.Pkg != nil && fn.Pkg.Pkg.Name() == "server" {
+		return &replayRecipe{kind: "store-model", pkgDir: "./examples/go-redisd/server", tmpl: "store_model_replay_test.go.txt"}
+	}
 	if fn.Pkg != nil && fn.Pkg.Pkg.Name() == "auth" {
 		return &replayRecipe{kind: "request", pkgDir: "./redis", tmpl: "redis_replay_test.go.txt", command: "PING", password: true}
 	}
@@ -655,6 +658,9 @@ func TryReplay(p *Program, o *Obligation, opts SolveOpts) map[string]any {
 	case "roundtrip":
 		info = map[string]any{"portfolio": "fixed family of value trees (all byte values in line and bulk payloads, null/empty, multi-digit lengths, nested and empty arrays) x 6 chunkings (no solver model: the obligation is quantified)"}
 		spec = map[string]any{}
+	case "store-model":
+		info = map[string]any{"portfolio": "2000 deterministic pseudo-random command programs (up to 30 commands, two keys per data type, small value/index/score pools) run against the real handlers and against a direct Redis model (no solver model: the obligation is quantified over the abstract store)"}
+		spec = map[string]any{}
 	case "glob":
 		info = map[string]any{"portfolio": "all patterns up to length 3 and keys up to length 4 over the property's alphabet (no solver model: the obligation is quantified)"}
 		spec = map[string]any{}
@@ -694,6 +700,12 @@ func TryReplay(p *Program, o *Obligation, opts SolveOpts) map[string]any {
 			o.Reproduced = true
 			res["result"] = "reproduced"
 			res["observed"] = fmt.Sprintf("round trip fails on the real code: %v", m)
+			return res
+		}
+		if fmt.Sprint(m["scenario"]) == "store-model" && oc == "mismatch" {
+			o.Reproduced = true
+			res["result"] = "reproduced"
+			res["observed"] = fmt.Sprintf("the example store answers differently from Redis: program %v: reply %q, Redis gives %q", m["program"], m["got"], m["want"])
 			return res
 		}
 		if sc := fmt.Sprint(m["scenario"]); sc == "glob" || sc == "scan-match" || sc == "store-glob" {
